@@ -6,6 +6,7 @@ import LitedramVerif.Spec.JedecLpddr4
 import LitedramVerif.Spec.JedecLpddr5
 import LitedramVerif.Spec.LpddrExpect
 import LitedramVerif.Proofs.LpddrSmall
+import LitedramVerif.Model.CmdPipeline
 namespace C20
 open LpddrCmd LpddrExpect
 
@@ -195,5 +196,101 @@ theorem lpddr5_roundtrip (masked done : Bool) (d : Dfi) :
       · exact ⟨mk5_mwr d true _, by simp [mk5]⟩
     · exact ⟨mk5_ref d true _, by simp [mk5]⟩
     · exact ⟨mk5_mrw d true _, by simp [mk5]⟩
+
+/-! ## LPDDR4 command pipeline (bit-slips and overlap masks) -/
+section pipeline
+open CmdPipeline
+
+/-- what adapter `p` contributes to the bit-slip input in a cycle: its CS slot `k`, masked -/
+def maskedCs (c : Cfg) (s : State) (i : Ins) (p k : Nat) : Bool :=
+  decide (k < slots) && (i p).cs k && allowed c s i p
+
+/-- **Placement** (per adapter): after two consecutive controller cycles with adapter outputs `a`
+then `b`, the bit-slipped CS word of the adapter on phase `p` carries, at serial slot `j`, slot
+`j - p` of the command presented in the *last* cycle when `j ≥ p`, and the tail (slot
+`csW - p + j`) of the command presented the cycle before when `j < p`: a command on phase `p`
+starts at serial slot `p` of the next cycle and spills into the following one. -/
+theorem cs_placement (c : Cfg) (s : State) (a b : Ins) (p j : Nat) (hp : p ≤ c.csW) :
+    (step c (step c s a) b).csR p (c.csW - p + j) =
+      if j < p then maskedCs c s a p (c.csW - p + j) else maskedCs c (step c s a) b p (j - p) := by
+  by_cases hjp : j < p
+  · have h1 : c.csW - p + j < c.csW := by omega
+    have h2 : ¬ (c.csW - p + j + c.csW < c.csW) := by omega
+    simp only [step, h1, if_true, h2, if_false, hjp, maskedCs, Nat.add_sub_cancel]
+  · have h1 : ¬ (c.csW - p + j < c.csW) := by omega
+    have e : c.csW - p + j - c.csW = j - p := by omega
+    simp only [step, h1, if_false, hjp, maskedCs, e]
+
+theorem any_congr_mem {α : Type} (l : List α) (f g : α → Bool) (h : ∀ x ∈ l, f x = g x) :
+    l.any f = l.any g := by
+  induction l with
+  | nil => rfl
+  | cons x xs ih =>
+    simp only [List.any_cons]
+    rw [h x (by simp), ih (fun y hy => h y (List.mem_cons_of_mem _ hy))]
+
+/-- the serialised CS output is the OR over the adapters of their placed contributions: the command
+issued on phase `p` of cycle `t` is what the pins show from serial slot `p` of cycle `t+1` on -/
+theorem out_cs_formula (c : Cfg) (s : State) (a b : Ins) (j : Nat) (hn : c.n ≤ c.csW) :
+    outCs c (step c (step c s a) b) j =
+      (List.range c.n).any fun p =>
+        if j < p then maskedCs c s a p (c.csW - p + j) else maskedCs c (step c s a) b p (j - p) := by
+  unfold outCs
+  apply any_congr_mem
+  intro p hp
+  have : p < c.n := List.mem_range.mp hp
+  exact cs_placement c s a b p j (by omega)
+
+/-- **Only overlaps are suppressed** (basic check): the adapter on phase `p` is masked exactly when
+some adapter was `valid` on one of the `span - 1` preceding phases, counted across the cycle
+boundary (phase `p - k` of this cycle, or phase `n + p - k` of the previous one). -/
+theorem allowed_basic (c : Cfg) (s : State) (i : Ins) (p : Nat) (hb : c.extended = false)
+    (hs : nprev c ≤ c.n) (hp : p < c.n) :
+    allowed c s i p = !((List.range (nprev c)).any fun q =>
+      let k := nprev c - q
+      if k ≤ p then (i (p - k)).valid else s.validsReg (c.n + p - k)) := by
+  unfold allowed
+  congr 1
+  apply any_congr_mem
+  intro q hq
+  have hq' : q < nprev c := List.mem_range.mp hq
+  simp only [hist, hb, Bool.false_eq_true, if_false, rValid]
+  by_cases hk : nprev c - q ≤ p
+  · have h1 : ¬ (c.n + p - nprev c + q < c.n) := by omega
+    have e : c.n + p - nprev c + q - c.n = p - (nprev c - q) := by omega
+    simp only [h1, if_false, hk, if_true, e]
+  · have h1 : c.n + p - nprev c + q < c.n := by omega
+    have e : c.n + p - nprev c + q = c.n + p - (nprev c - q) := by omega
+    rw [if_pos h1, if_neg hk, e]
+
+/-- the LPDDR4 PHY's configuration -/
+def cfg4 (ext : Bool) : Cfg := { n := 8, csW := 8, caW := 8, caN := 6, span := 4, extended := ext }
+
+/-- an adapter presenting an ACTIVATE-like command (CS on slots 0 and 2) -/
+def actIn : AdIn := { valid := true, cs := fun k => k == 0 || k == 2, ca := fun _ _ => false }
+def idleIn : AdIn := { valid := false, cs := fun _ => false, ca := fun _ _ => false }
+def cyc (ps : List Nat) : Ins := fun p => if ps.contains p then actIn else idleIn
+
+/-- **Known finding, on the model** (`c20-chain-suppression`): with the extended check, requests on
+cycle 1 phase 7, cycle 2 phases 1, 4, 6 and cycle 3 phase 0: the phase-4 command is sent (phase 1 was
+dropped), phase 6 is dropped, and the cycle-3 phase-0 command — which overlaps nothing in flight — is
+dropped as well: no CS appears on any slot of the following cycle. -/
+theorem chain_counterexample :
+    let s2 := step (cfg4 true) (step (cfg4 true) init (cyc [7])) (cyc [1, 4, 6])
+    let s3 := step (cfg4 true) s2 (cyc [0])
+    (List.range 8).map (outCs (cfg4 true) s2) = [false, true, false, false, true, false, true, false] ∧
+    (List.range 8).map (outCs (cfg4 true) s3) = [false, false, false, false, false, false, false, false] := by
+  decide
+
+/-- …whereas two commands alone behave exactly as the property says, e.g. 4 phases apart both are
+sent (CS pattern of both visible), 3 phases apart the second is dropped. -/
+theorem pair_examples :
+    (List.range 8).map (outCs (cfg4 false) (step (cfg4 false) init (cyc [0, 4])))
+      = [true, false, true, false, true, false, true, false] ∧
+    (List.range 8).map (outCs (cfg4 false) (step (cfg4 false) init (cyc [0, 3])))
+      = [true, false, true, false, false, false, false, false] := by
+  decide
+
+end pipeline
 
 end C20
